@@ -952,16 +952,20 @@ class NodeFor:
 
     @ownPosition
     def evaluate(self, environment):
+        lst = self.expression.evaluate(environment)
+        if isExit(lst):
+            return lst
         # the loop variables live in the enclosing scope while the loop
-        # runs; whatever that scope bound to these names before is put back
-        # afterwards, however the loop ends
+        # runs; whatever that scope bound to these names before (the
+        # expression above may just have changed it) is put back afterwards,
+        # however the loop ends
         saved = {
             name: environment.map[name]
             for name in self.identifiers
             if name in environment.map
         }
         try:
-            return self.iterate(environment)
+            return self.iterate(environment, lst)
         finally:
             for name in self.identifiers:
                 if name in saved:
@@ -969,10 +973,7 @@ class NodeFor:
                 else:
                     environment.map.pop(name, None)
 
-    def iterate(self, environment):
-        lst = self.expression.evaluate(environment)
-        if isExit(lst):
-            return lst
+    def iterate(self, environment, lst):
         if lst.isInput():
             input_ = lst
             result = TRUE
